@@ -235,6 +235,9 @@ const (
 	enExecute  = "Execute"
 	enPlan     = "PlanQuery+ExecutePlan"
 	enPlanZero = "PlanQuery+ExecutePlan(zero Params.Schema)"
+	// the plan is prepared while the schema has no extension; the extensions are
+	// registered afterwards (AddExtensions) and the retained plan is executed
+	enPlanThenAdd = "PlanQuery, AddExtensions, ExecutePlan"
 )
 
 func isDo(entry string) bool { return entry == enDoConfig || entry == enDoAdd }
